@@ -604,6 +604,25 @@ def c19_put_matrix_cases(rng):
     return cases
 
 
+def c19_seq_edge_cases(rng):
+    """Consecutive transactions of one entity whose provider values run up to (and past) the largest value of the
+    sequence-number field: every value that fits must be carried unchanged, also the all-ones one."""
+    import copy
+    out = []
+    for seqw in (1, 2, 4):
+        top = 2 ** (8 * seqw)
+        for start in (top - 4, top - 3, top - 2, top - 1, top // 2 - 1, rng.randint(0, top - 2)):
+            base = Cfg(mode=1, closure=False, max_seg=rng.choice([2, 4]), max_packet=64, seqw=seqw, seq_start=start,
+                       src_idw=rng.choice([1, 2]), dst_idw=rng.choice([1, 2, 4]))
+            seq = []
+            for _ in range(4):
+                c = copy.copy(base)
+                c.req_mode, c.req_closure = 1, False
+                seq.append((c, bytes(rng.getrandbits(8) for _ in range(rng.choice([0, 3])))))
+            out.append(seq)
+    return out
+
+
 def cancel_around_nak_case(cfg: Cfg, data, k_calls, reqs, m_after, drain_before_cancel=True, tag="c12n"):
     """Acknowledged sender: k empty calls, a NAK with the requests [reqs], the answer retrieved, m further empty calls,
     then the user's cancel request (injected between two state-machine calls, also right after the retransmitted PDUs were
